@@ -666,7 +666,7 @@ type machine struct {
 	baseBy  map[string]string
 	c       *tengo.Compiled
 	names   []string
-	known   map[string]string // name -> description the next Get must return
+	known   map[string]string       // name -> description the next Get must return
 	saved   map[string]tengo.Object // values replaced by "set" operations, put back before the next run
 	inside  int
 	cancels int
